@@ -189,3 +189,21 @@ Proof.
     rewrite Hg in Hge. injection Hge as ->. congruence.
   - destruct (may_match f e); lia.
 Qed.
+
+(* per REQ: a stored event that must match one of the first five filters (under that filter's limit) arrives at least once *)
+Theorem C02_kv_req_at_least_once dl mx d fs f e :
+  Coherent d -> (forall x, stored d x -> tags_ok x) -> In f (firstn maximum_plans fs) -> wf_filter f -> ids_desc f ->
+  range_scan_refused f = false ->
+  (forall n, p_limit (mk_plan dl mx f) = Some n -> at_most d (may_match f) n) ->
+  stored d e -> must_match f e = true -> delegator_only_match f e = false ->
+  In e (answer_kv dl mx d fs).
+Proof.
+  intros Hc Htags Hf Hwf Hdesc Href Hlim Hst Hm Hdel.
+  destruct (C02_kv_partial dl mx d f e Hc Htags Hwf Hdesc Href Hst Hm Hdel) as [p [Hp Hin]].
+  assert (Ep : p = mk_plan dl mx f).
+  { unfold plan_one in Hp. destruct (skipped f); [discriminate|].
+    destruct (plan_stages f); [destruct (_ || _); [|discriminate]|]; injection Hp as <-; reflexivity. }
+  subst p. destruct (Hin Hlim) as [He _].
+  unfold answer_kv, executor. apply in_concat. exists (execute_one_plan d (mk_plan dl mx f)). split; [|exact He].
+  apply in_map. unfold planner. apply in_flat_map. exists f. split; [exact Hf|]. rewrite Hp. left. reflexivity.
+Qed.
